@@ -821,29 +821,59 @@ func OrdAppendEach(p *load.Program) *report.RuleResult {
 			return ok && c.Common().IsInvoke() && strings.HasPrefix(c.Common().Method.Name(), "Write")
 		}
 		m := 0
-		for _, b := range wt.Blocks {
-			for _, in := range b.Instrs {
-				ph, ok := in.(*ssa.Phi)
-				if !ok || ph.Comment != "rangeindex" || blockIfCond(b) == nil {
-					continue
+		closure := helperClosure(p, wt, func(f *ssa.Function) bool { return f.Object() == nil || !f.Object().Exported() }, 2)
+		// is v the table's symbols: a load of the field, or a parameter of a helper that is passed one
+		var isSymbols func(g *ssa.Function, v ssa.Value) bool
+		isSymbols = func(g *ssa.Function, v ssa.Value) bool {
+			if _, f, _, ok := fieldLoadExact(v); ok && f == "symbols" {
+				return true
+			}
+			prm, ok := v.(*ssa.Parameter)
+			if !ok {
+				return false
+			}
+			idx := -1
+			for k, q := range g.Params {
+				if q == prm {
+					idx = k
 				}
-				body := b.Succs[0]
-				overSymbols := false
-				for _, x := range body.Instrs {
-					if ia, ok := x.(*ssa.IndexAddr); ok {
-						if _, f, _, ok := fieldLoadExact(ia.X); ok && f == "symbols" {
-							overSymbols = true
+			}
+			for _, h := range closure {
+				for _, hb := range h.Blocks {
+					for _, hin := range hb.Instrs {
+						if hc, ok := hin.(ssa.CallInstruction); ok && load.Unwrap(hc.Common().StaticCallee()) == g && idx >= 0 && idx < len(hc.Common().Args) {
+							if _, f, _, ok := fieldLoadExact(hc.Common().Args[idx]); ok && f == "symbols" {
+								return true
+							}
 						}
 					}
 				}
-				if !overSymbols {
-					continue
-				}
-				m++
-				if reachesBlockAvoiding(body, b, isWrite) {
-					r.Bad(p.FuncName(wt), instrPos(p, ph), "one list element per entry of symbols", "a path round the loop writes nothing for an entry: the emitted table is shorter than the one the writer numbers its symbols by, so every later ID denotes other text (or none) in the stream")
-				} else {
-					r.OK(p.FuncName(wt), instrPos(p, ph), "one list element per entry of symbols", "every path round the loop writes a value")
+			}
+			return false
+		}
+		for _, g := range closure {
+			for _, b := range g.Blocks {
+				for _, in := range b.Instrs {
+					ph, ok := in.(*ssa.Phi)
+					if !ok || ph.Comment != "rangeindex" || blockIfCond(b) == nil {
+						continue
+					}
+					body := b.Succs[0]
+					overSymbols := false
+					for _, x := range body.Instrs {
+						if ia, ok := x.(*ssa.IndexAddr); ok && isSymbols(g, ia.X) {
+							overSymbols = true
+						}
+					}
+					if !overSymbols {
+						continue
+					}
+					m++
+					if reachesBlockAvoiding(body, b, isWrite) {
+						r.Bad(p.FuncName(g), instrPos(p, ph), "one list element per entry of symbols", "a path round the loop writes nothing for an entry: the emitted table is shorter than the one the writer numbers its symbols by, so every later ID denotes other text (or none) in the stream")
+					} else {
+						r.OK(p.FuncName(g), instrPos(p, ph), "one list element per entry of symbols", "every path round the loop writes a value")
+					}
 				}
 			}
 		}
